@@ -271,7 +271,7 @@ func (m *MV) g(b *strings.Builder) {
 	case "VFloat":
 		b.WriteString("(VFloat " + lib.GZ(m.I) + ")")
 	case "VStr":
-		b.WriteString("(VStr " + lib.GStr(m.S) + ")")
+		b.WriteString("(VStr " + gStr(m.S) + ")")
 	case "VArr":
 		fmt.Fprintf(b, "(VArr %d%%N ", m.Id)
 		gList(b, len(m.E), "@rvalue str", func(i int) { m.E[i].g(b) })
@@ -281,7 +281,7 @@ func (m *MV) g(b *strings.Builder) {
 		gList(b, len(m.E)/2, "@rvalue str * str * @rvalue str", func(i int) {
 			b.WriteString("(")
 			m.E[2*i].g(b)
-			b.WriteString(", " + lib.GStr(m.Ks[i]) + ", ")
+			b.WriteString(", " + gStr(m.Ks[i]) + ", ")
 			m.E[2*i+1].g(b)
 			b.WriteString(")")
 		})
@@ -291,25 +291,25 @@ func (m *MV) g(b *strings.Builder) {
 		m.E[0].g(b)
 		b.WriteString(")")
 	case "VBin":
-		fmt.Fprintf(b, "(VBin %d%%N %s %s)", m.Id, lib.GStr(m.P), lib.GStr(m.Disp))
+		fmt.Fprintf(b, "(VBin %d%%N %s %s)", m.Id, gStr(m.P), gStr(m.Disp))
 	case "VRich":
-		fmt.Fprintf(b, "(VRich %d%%N %s %s %s %s)", m.Id, lib.GStr(m.S), lib.GBool(m.Lvl2), lib.GStr(m.P), lib.GStr(m.Disp))
+		fmt.Fprintf(b, "(VRich %d%%N %s %s %s %s)", m.Id, gStr(m.S), lib.GBool(m.Lvl2), gStr(m.P), gStr(m.Disp))
 	case "VObj":
 		fmt.Fprintf(b, "(VObj %d%%N ", m.Id)
 		m.Ty.g(b)
 		fmt.Fprintf(b, " %d%%nat ", m.Hint)
 		gList(b, len(m.E), "str * @rvalue str", func(i int) {
-			b.WriteString("(" + lib.GStr(m.An[i]) + ", ")
+			b.WriteString("(" + gStr(m.An[i]) + ", ")
 			m.E[i].g(b)
 			b.WriteString(")")
 		})
-		b.WriteString(" " + lib.GStr(m.Disp) + ")")
+		b.WriteString(" " + gStr(m.Disp) + ")")
 	case "VObjT":
 		fmt.Fprintf(b, "(VObjT %d%%N ", m.Id)
 		m.Ty.g(b)
 		fmt.Fprintf(b, " %d%%nat ", m.Req)
 		m.attrList(b)
-		b.WriteString(" " + lib.GStr(m.Disp) + ")")
+		b.WriteString(" " + gStr(m.Disp) + ")")
 	default:
 		panic("gallina: value outside the model: " + m.Why)
 	}
@@ -318,7 +318,7 @@ func (m *MV) g(b *strings.Builder) {
 // attrList prints the `list (@attr str)` of a VObjT
 func (m *MV) attrList(b *strings.Builder) {
 	gList(b, len(m.E), "@attr str", func(i int) {
-		b.WriteString("(mkattr " + lib.GStr(m.An[i]) + " ")
+		b.WriteString("(mkattr " + gStr(m.An[i]) + " ")
 		m.E[i].g(b)
 		b.WriteString(" " + lib.GBool(m.Def[i]) + ")")
 	})
@@ -327,7 +327,7 @@ func (m *MV) attrList(b *strings.Builder) {
 // declList prints the `list (@decl str)` of a VObjT: name and declared default of every attribute
 func (m *MV) declList(b *strings.Builder) {
 	gList(b, len(m.E), "@decl str", func(i int) {
-		b.WriteString("(mkdecl " + lib.GStr(m.An[i]) + " ")
+		b.WriteString("(mkdecl " + gStr(m.An[i]) + " ")
 		if m.Dv[i] == nil {
 			b.WriteString("None")
 		} else {
@@ -375,7 +375,7 @@ func (m *MV) pe(b *strings.Builder) {
 	case "VFloat":
 		b.WriteString("(PFloat " + lib.GZ(m.I) + ")")
 	case "VStr":
-		b.WriteString("(PStr " + lib.GStr(m.S) + ")")
+		b.WriteString("(PStr " + gStr(m.S) + ")")
 	case "VArr":
 		b.WriteString("(PArr ")
 		gList(b, len(m.E), "@pvalue str", func(i int) { m.E[i].pe(b) })
@@ -395,15 +395,15 @@ func (m *MV) pe(b *strings.Builder) {
 		m.E[0].pe(b)
 		b.WriteString(")")
 	case "VBin":
-		fmt.Fprintf(b, "(PRich %s %s)", lib.GStr("Binary"), lib.GStr(m.P))
+		fmt.Fprintf(b, "(PRich %s %s)", gStr("Binary"), gStr(m.P))
 	case "VRich":
-		fmt.Fprintf(b, "(PRich %s %s)", lib.GStr(m.S), lib.GStr(m.P))
+		fmt.Fprintf(b, "(PRich %s %s)", gStr(m.S), gStr(m.P))
 	case "VObj":
 		b.WriteString("(PObj ")
 		m.Ty.pe(b)
 		b.WriteString(" ")
 		gList(b, len(m.E), "@pvalue str * @pvalue str", func(i int) {
-			b.WriteString("(PStr " + lib.GStr(m.An[i]) + ", ")
+			b.WriteString("(PStr " + gStr(m.An[i]) + ", ")
 			m.E[i].pe(b)
 			b.WriteString(")")
 		})
@@ -416,4 +416,19 @@ func (m *MV) pe(b *strings.Builder) {
 	default:
 		panic("erased: value outside the model: " + m.Why)
 	}
+}
+
+// gStr prints a byte string as a term of type str. Printable ASCII goes as a Coq string literal under
+// Corr.CorrC10.b (= Model.Ser.bytes_of; one token for the elaborator instead of one number per byte,
+// which is what the time of a cases file goes into); anything else as the list of bytes.
+func gStr(s string) string {
+	if len(s) == 0 {
+		return "(@nil N)"
+	}
+	for i := 0; i < len(s); i++ {
+		if s[i] < 32 || s[i] > 126 || s[i] == '"' {
+			return lib.GStr(s)
+		}
+	}
+	return `(b "` + s + `")`
 }
